@@ -24,6 +24,7 @@ CHECKS = {
  "C15": dict(fam="detect", ref="4.4", note='Trusted: TLC; in-package driver reading tempThresh/background after each Detect (build tag verif); harness-written telemetry; float deviations named in Detector.tla (+-1 on the mean, weight ties).', text="TLC checks on the design model (dynamic threshold, min/max unset or set, mean below/inside/above, preview 0/1, FFC, resets) the background envelope, border replication, re-seed and threshold = clamped mean; the real detector's background and threshold after every frame are judged by the same rules in TLC (+-1 for the float mean) and validated against Detector.tla."),
  "C10": dict(fam="files", ref="4.6", note="Trusted: TLC; strace/ptrace for kill placement (falls back to random-instant kills); go-cptv reader as the definition of 'decodes'; POSIX rename/unlink atomicity; process kill only.", text="TLC checks FileRecorder.tla (file-system calls of start/write/stop/discard, crash in every state, clean-up with the kinds measured on the real deleteTempFiles, restart) for 'every *.cptv is complete' and 'only complete recordings after clean-up'; the real recorder's call sequence (strace) is validated as a behaviour of that model with the invariant evaluated after every call; the process is really SIGKILLed on entering each file-system call of the scenarios and at random instants, every *.cptv is fully decoded, the daemon's clean-up is run, and a concurrent observer decodes files the moment they appear; the findings are judged by TLC (FileTrace.tla)."),
  "C11": dict(fam="files", ref="4.6", note="Trusted: TLC as evaluator of expected = decoded (the specification of fidelity is the identity); go-cptv reader; the e2e harness (runMain in-process, fake system bus, lock-step pacing so that 1 ms file names cannot collide); detector verdicts in e2e are the scene toggles (fixed-threshold one-diff configuration).", text="Generated device/camera/location/motion descriptions, pixel generators (full 16-bit range, 0, 65535, alternating extremes) and telemetry extremes go through the real CPTVFileRecorder; TLC compares every decoded header field, frame, pixel and telemetry value with what was recorded (Fidelity.tla). End to end, the unmodified runMain() gets a generated config.toml and a scripted socket byte stream; SystemTrace.tla steps Processor.tla with constants from the GENERATED settings and TLC compares the predicted files (frame-id sequences, motion and continuous) with the files decoded from the output directory, plus headers incl. camera-model motion defaults and throttle on/off."),
+ "C14": dict(fam="socket", ref="4.7", note="Trusted: TLC; gopkg.in/yaml.v1 as the camera daemon's encoder; e2e harness (runMain in-process on a real unix socket, lock-step pacing); frames do not begin with the marker except in the witness of known finding F-C14-1.", text="TLC checks FrameSocket.tla (header lines, blank line, frames and markers over a byte stream delivered in every segmentation and closed at every point) for in-order exactly-once delivery, exact header, no over-read and termination; generated camera descriptions are encoded with the daemon's encoder and read back by ReadHeaderInfo through arbitrary read segmentation and at every truncation point; end to end, runMain receives streams in seeded chunk sizes with markers, bad frames, reconnects and cut headers, and TLC compares the files predicted by SystemTrace.tla with those produced; marker constants of both daemons are compared."),
 }
 NOT_YET = {
 }
@@ -51,7 +52,8 @@ def main():
         hooks=dict(guard="verif", enable="go build -tags verif (drivers are compiled inside a scratch copy of /repo's working tree)",
                    baseline_off_cmd="cd /repo && go build ./... && go test -vet=off -count=1 ./...",
                    source_commits=[], add_only=True),
-        engines=[dict(name="tlc-files", path="tools/fam_files.py", serves_properties=["C10", "C11"], kind_free_text="TLC around spec/FileRecorder.tla, FileTrace.tla, Fidelity.tla, SystemTrace.tla; in-package drivers harness/inpkg/cmd/thermal-recorder (scenario child under strace, record/decode, e2e runMain + fake bus)"),
+        engines=[dict(name="tlc-socket", path="tools/fam_socket.py", serves_properties=["C14"], kind_free_text="TLC around spec/FrameSocket.tla, SockTrace.tla, SystemTrace.tla; drivers harness/ext/hdrdrv and the e2e harness"),
+                 dict(name="tlc-files", path="tools/fam_files.py", serves_properties=["C10", "C11"], kind_free_text="TLC around spec/FileRecorder.tla, FileTrace.tla, Fidelity.tla, SystemTrace.tla; in-package drivers harness/inpkg/cmd/thermal-recorder (scenario child under strace, record/decode, e2e runMain + fake bus)"),
                  dict(name="tlc-detect", path="tools/fam_detect.py", serves_properties=["C07", "C08", "C09", "C15"], kind_free_text="TLC around spec/Detector.tla, DetCheck.tla, DetMon.tla; in-package driver harness/inpkg/motion"),
                  dict(name="tlc-throttle", path="tools/fam_throttle.py", serves_properties=["C05", "C06"], kind_free_text="TLC around spec/Throttle.tla + ThrMon.tla; driver harness/ext/thrdrv (direct and real-processor modes)"),
                  dict(name="tlc-ring", path="tools/fam_ring.py", serves_properties=["C19"], kind_free_text="TLC around spec/FrameLoop.tla; driver harness/ext/ringdrv"),
